@@ -179,10 +179,45 @@ class PeerSession:
         self.state = {}
 
 
+_MAKE_SD_COUNT = [0]
+_FOREIGN_LOOP = []
+DECOY_TIMINGS = dict(INITIAL_DELAY_MIN=7.0, INITIAL_DELAY_MAX=9.0, REQUEST_RESPONSE_DELAY_MIN=5.0, REQUEST_RESPONSE_DELAY_MAX=6.0,
+                     REPETITIONS_MAX=7, REPETITIONS_BASE_DELAY=3.0, CYCLIC_OFFER_DELAY=9.0, FIND_TTL=9, ANNOUNCE_TTL=11,
+                     SUBSCRIBE_TTL=13, SUBSCRIBE_REFRESH_INTERVAL=11.0, SEND_COLLECTION_TIMEOUT=0.5)
+
+
 def make_sd(loop, addr=("10.0.0.1", 30490), timings=None, net=None, mcast=MCAST):
+    """a ServiceDiscoveryProtocol on a recording transport.  The public API allows several ways to get there and all of them
+    are used in turn: timings passed to the constructor, or a protocol built with defaults and configured afterwards by
+    assigning to prot.timings.<FIELD> (what create_endpoints() users and the repository's tests do); built while the loop
+    that will run it is the current one, or beforehand while another loop is current (objects set up before asyncio.run());
+    and always next to a second, differently configured protocol object in the same process (a dual-stack node)."""
+    import asyncio
+    import dataclasses
     import someip.sd as S
 
-    prot = S.ServiceDiscoveryProtocol(mcast, timings=timings)
+    _MAKE_SD_COUNT[0] += 1
+    n = _MAKE_SD_COUNT[0]
+    foreign = n % 3 == 0
+    if foreign:
+        if not _FOREIGN_LOOP:
+            from pv.vloop import VLoop
+            _FOREIGN_LOOP.append(VLoop())
+        asyncio.set_event_loop(_FOREIGN_LOOP[0])
+    try:
+        if timings is not None and n % 2 == 0:
+            prot = S.ServiceDiscoveryProtocol(mcast)
+            for f in dataclasses.fields(timings):
+                setattr(prot.timings, f.name, getattr(timings, f.name))
+        else:
+            prot = S.ServiceDiscoveryProtocol(mcast, timings=timings)
+        decoy = S.ServiceDiscoveryProtocol(mcast)
+        for k, v in DECOY_TIMINGS.items():
+            setattr(decoy.timings, k, v)
+        prot._pv_decoy = decoy
+    finally:
+        if foreign:
+            asyncio.set_event_loop(loop)
     tr = RecTransport(loop, addr, net=net)
     prot.transport = tr
     if net is not None:
